@@ -1,4 +1,5 @@
 import Mdsort.Proofs.WorldExitInv
+import Mdsort.Proofs.WorldDirsSame
 
 /-!
 # A directory is opened; the walk over one maildir, under at most one fault
@@ -117,7 +118,9 @@ theorem exit0_rem_of_obj {w : World} {d : Handle} {p : Bytes} {names : List Byte
     (h : w.obj d = .dir p (some names) pos) : exit0_rem w d = names.drop pos := by
   simp [exit0_rem, h]
 
-theorem exit0_walk (C : exit0_Ctx) (hG : exit0_Good C) (e : Expr) (hstep : exit0_StepOK C.env C.orc e) (fuel : Nat) :
+/-- `exit0_walk` with one more fact: a walk that started in `new` and ends without the error flag has opened
+`cur`, so that directory exists (no call of a walk creates or removes a directory: `dirsSame_walk`). -/
+theorem exit0_walk' (C : exit0_Ctx) (hG : exit0_Good C) (e : Expr) (hstep : exit0_StepOK C.env C.orc e) (fuel : Nat) :
     ∀ (md : Maildir) (st : MainSt) (w : World) (b : Bool) (pre later : List (Bytes × Expr)) (rem : List Bytes) (d : Handle),
       md.dirH = some d → md.stdin = false → WholeMdOk w md →
       (∃ snap pos, w.obj d = .dir md.path snap pos) → exit0_rem w d = rem →
@@ -127,7 +130,8 @@ theorem exit0_walk (C : exit0_Ctx) (hG : exit0_Good C) (e : Expr) (hstep : exit0
       rem.length + 1 + (if md.subdir = .new then
           (st.files.filter (fun x => x.1 == md.root ++ [47] ++ subdirName .cur)).length + 3 else 0) ≤ fuel →
       wpS (walk C.env C.orc e fuel md st)
-        (fun _ r w' => r.1.error = false → exit0_Inv C (if md.subdir = .new then later.tail else later) none r.1 w') b w := by
+        (fun _ r w' => r.1.error = false → exit0_Inv C (if md.subdir = .new then later.tail else later) none r.1 w' ∧
+          (md.subdir = .new → (w'.dir (md.root ++ [47] ++ subdirName .cur)).isSome = true)) b w := by
   induction fuel with
   | zero =>
     intro md st w b pre later rem d _ _ _ _ _ _ _ _ _ hf
@@ -169,7 +173,7 @@ theorem exit0_walk (C : exit0_Ctx) (hG : exit0_Good C) (e : Expr) (hstep : exit0
       | cur =>
         simp only [reduceCtorEq, if_false]
         intro _
-        exact hinvE
+        exact ⟨hinvE, fun h => by cases h⟩
       | new =>
         obtain ⟨later', hlater⟩ := hnew hsub
         simp only [if_true]
@@ -211,16 +215,18 @@ theorem exit0_walk (C : exit0_Ctx) (hG : exit0_Good C) (e : Expr) (hstep : exit0
               rw [World.length_sortedNames]
               simp only [hsub, if_true, List.length_nil, ← hpeq] at hfuel
               omega
-            refine wpS_mono (ih _ st w3 b3 (pre ++ [(md.path, e)]) later'
+            refine wpS_mono (World.wpS_and (ih _ st w3 b3 (pre ++ [(md.path, e)]) later'
               (sortedNames es) h3 rfl rfl ⟨?_, hpj⟩ ⟨none, 0, hobj3⟩ hrem3 ?_ (fun h => by cases h) hrokO hinvO
-              (by simpa using hfu)) ?_
+              (by simpa using hfu)) (dirsSame_walk C.env C.orc e fuel _ st b3 w3)) ?_
             · intro d' hd'
               cases hd'
               simp [World.dirPath, hobj3]
             · rw [hs, hlater, ← hpeq]; simp
-            · intro _ r w' hpost hne
-              have := hpost hne
-              simpa [hlater] using this
+            · rintro _ r w' ⟨hpost, hsame⟩ hne
+              have := (hpost hne).1
+              refine ⟨by simpa [hlater] using this, fun _ => ?_⟩
+              rw [← hpeq, hsame p, hdir3]
+              rfl
     · -- a name
       rw [he] at hinv1 hmd1 ⊢
       rw [hrem] at hremc
@@ -279,5 +285,20 @@ theorem exit0_walk (C : exit0_Ctx) (hG : exit0_Good C) (e : Expr) (hstep : exit0
             omega
           · simp only [hsub, if_false] at hfuel ⊢
             omega
+
+theorem exit0_walk (C : exit0_Ctx) (hG : exit0_Good C) (e : Expr) (hstep : exit0_StepOK C.env C.orc e) (fuel : Nat) :
+    ∀ (md : Maildir) (st : MainSt) (w : World) (b : Bool) (pre later : List (Bytes × Expr)) (rem : List Bytes) (d : Handle),
+      md.dirH = some d → md.stdin = false → WholeMdOk w md →
+      (∃ snap pos, w.obj d = .dir md.path snap pos) → exit0_rem w d = rem →
+      C.dirs = pre ++ (md.path, e) :: later →
+      (md.subdir = .new → ∃ later', later = (md.root ++ [47] ++ subdirName .cur, e) :: later') →
+      exit0_RemOk C md.path rem → exit0_Inv C later (some (md.path, e, rem)) st w →
+      rem.length + 1 + (if md.subdir = .new then
+          (st.files.filter (fun x => x.1 == md.root ++ [47] ++ subdirName .cur)).length + 3 else 0) ≤ fuel →
+      wpS (walk C.env C.orc e fuel md st)
+        (fun _ r w' => r.1.error = false → exit0_Inv C (if md.subdir = .new then later.tail else later) none r.1 w') b w := by
+  intro md st w b pre later rem d hd hsd hmd hobj hrem hs hnew hrok hinv hfuel
+  exact wpS_mono (exit0_walk' C hG e hstep fuel md st w b pre later rem d hd hsd hmd hobj hrem hs hnew hrok hinv hfuel)
+    fun _ _ _ h he => (h he).1
 
 end Mdsort.Proofs
